@@ -101,6 +101,26 @@ def replay(recs):
                             return "NotConcurrent"
                         return "returned"
                     chk("crossratio(lines)/not-concurrent", "not-concurrent", case, "NotConcurrent", raises2, lambda v: v == "NotConcurrent")
+                if r["d"] == 2:
+                    # the same four lines as lines of 3-space, in the plane z = 0 and in a tilted plane: coplanar, not concurrent
+                    def line3(l, tilt):
+                        l = np.array(l)
+                        cand = [np.cross(l, e) for e in ((1, 0, 0), (0, 1, 0), (0, 0, 1))]
+                        cand = [c for c in cand if np.any(c != 0)]
+                        p1 = cand[0]
+                        p2 = next(c for c in cand[1:] if np.any(np.cross(c, p1) != 0))
+                        up = lambda p: g.Point(np.array([p[0], p[1], (p[0] + 2 * p[1] + 3 * p[2]) if tilt else 0, p[2]]))  # noqa: E731
+                        return g.Line(up(p1), up(p2))
+                    for tilt in (False, True):
+                        def raises3(tilt=tilt):
+                            try:
+                                with np.errstate(all="ignore"):
+                                    v = g.crossratio(*[line3(p, tilt) for p in r["pts"]])
+                            except g.exceptions.NotConcurrent:
+                                return "NotConcurrent"
+                            return "returned " + str(v)
+                        chk("crossratio(lines)/3D/coplanar-not-concurrent" + ("/tilted-plane" if tilt else ""), "not-concurrent", case, "NotConcurrent",
+                            raises3, lambda v: v == "NotConcurrent")
     return out
 
 
@@ -146,8 +166,41 @@ def replay_coll(recs):
     return out
 
 
+def replay_collerr(job):
+    """collections of collinear quadruples with ONE non-collinear quadruple mixed in (in the middle / at the end / first): the
+    call must raise NotCollinear, as the single objects at that position do"""
+    g = import_geometer()
+    recs, err = job
+    out = []
+    dim = recs[0]["r"]["d"]
+    for where in ("first", "middle", "last"):
+        quads = [r["r"]["pts"] for r in recs]
+        pos = {"first": 0, "middle": len(quads) // 2, "last": len(quads)}[where]
+        quads.insert(pos, err["r"]["pts"])
+        site = f"crossratio(points)/{dim}D/collection/one-position-not-collinear/{where}"
+        for form in ("collections", "single-first-argument"):
+            try:
+                cols = [g.PointCollection(np.array([q[i] for q in quads])) for i in range(4)]
+                if form == "single-first-argument":
+                    if len({tuple(q[0]) for q in quads}) != 1:
+                        continue
+                    cols[0] = g.Point(np.array(quads[0][0]))
+                with np.errstate(all="ignore"):
+                    val = g.crossratio(*cols)
+                out.append(dict(site=site + "/" + form, stratum="not-collinear", case={"pts": err["r"]["pts"], "position": pos, "count": len(quads)},
+                                expected="NotCollinear", observed="returned " + str(np.asarray(val).tolist())[:200]))
+            except g.exceptions.NotCollinear:
+                pass
+            except Exception as e:  # noqa: BLE001
+                out.append(dict(site=site + "/" + form, stratum="not-collinear", case={"pts": err["r"]["pts"], "position": pos, "count": len(quads)},
+                                expected="NotCollinear", observed=f"raised {type(e).__name__}: {e}"))
+    return out
+
+
 def _work(job):
     try:
+        if job[0] == "collerr":
+            return replay_collerr(job[1])
         return replay(job[1]) if job[0] == "single" else replay_coll(job[1])
     except Exception:  # noqa: BLE001
         import traceback
@@ -180,6 +233,17 @@ def run(ctx: Ctx):
         sel = [x for x in recs if x["r"]["t"] == "pts" and x["r"]["d"] == dim]
         for i in range(0, len(sel), 200):
             jobs.append(("coll", sel[i:i + 200]))
+    nerr = 0
+    for dim in (2, 3):
+        sel = [x for x in recs if x["r"]["t"] == "pts" and x["r"]["d"] == dim and x["r"]["cr"][1] != 0]
+        errs = [x for x in recs if x["r"]["t"] == "err" and x["r"]["d"] == dim and not x["r"]["coll"]]
+        for j, e in enumerate(errs[:40]):
+            chunk = sel[(j * 5) % max(1, len(sel) - 6):][:5]
+            if len(chunk) >= 2:
+                jobs.append(("collerr", (chunk, e)))
+                nerr += 1
+    if nerr < 10:
+        raise MachineryError("too few collections with a non-collinear position (vacuous)")
     with Pool(16) as pool:
         results = pool.map(_work, jobs, chunksize=1)
     for res in results:
